@@ -3,8 +3,10 @@ package main
 import (
 	"fmt"
 	"go/ast"
+	"go/constant"
 	"go/token"
 	"go/types"
+	"golang.org/x/tools/go/ssa"
 )
 
 func init() {
@@ -317,6 +319,9 @@ func hasRule(r *Run, rule string) {
 				}
 			}
 		}
+		if !ok {
+			ok = hasRuleSSA(w, f)
+		}
 		if ok {
 			r.Ok(rule, f.Name(), "return c.Value(key) != nil", w.Pos(f.Decl.Pos()), "Has derived from Value")
 		} else {
@@ -325,4 +330,74 @@ func hasRule(r *Run, rule string) {
 		return
 	}
 	r.Lost(rule, "Context.Has")
+}
+
+// hasRuleSSA: on every path of Has the receiver's Value is called exactly once, with the key parameter, and the
+// result is "that value is not nil" - as the comparison itself, or as a constant under a branch on it.
+func hasRuleSSA(w *World, f *FuncInfo) bool {
+	fn := w.SSAFunc(f)
+	if fn == nil || len(fn.Params) != 2 {
+		return false
+	}
+	recv, key := ssa.Value(fn.Params[0]), ssa.Value(fn.Params[1])
+	paths, ok := walkPaths(fn, nil, func(caller, callee *ssa.Function) bool {
+		return pkgOf(callee) == fn.Pkg && fnObject(callee) != nil && !fnObject(callee).Exported() && !funcHasLoop(callee)
+	})
+	if !ok || len(paths) == 0 {
+		return false
+	}
+	for _, p := range paths {
+		if p.end != "return" || len(p.results) != 1 {
+			return false
+		}
+		var val *ssa.Call
+		n := 0
+		for _, ev := range p.events {
+			c, isCall := ev.(*ssa.Call)
+			if !isCall {
+				continue
+			}
+			g := c.Call.StaticCallee()
+			if g == nil || g.Name() != "Value" || len(c.Call.Args) != 2 {
+				if g != nil && inModule(g) {
+					return false // something else is consulted
+				}
+				continue
+			}
+			n++
+			if p.resolve(c.Call.Args[0]) != recv || p.resolve(stripIface(p.resolve(c.Call.Args[1]))) != key {
+				return false
+			}
+			val = c
+		}
+		if n != 1 {
+			return false
+		}
+		isVal := func(v ssa.Value) bool { return p.resolve(v) == ssa.Value(val) }
+		res := p.resolve(p.results[0])
+		if x, op, isCmp := isNilCompare(p, res); isCmp && isVal(x) {
+			if op != token.NEQ {
+				return false
+			}
+			continue
+		}
+		c, isC := p.constOf(res)
+		if !isC || c.Kind() != constant.Bool {
+			return false
+		}
+		decided := false
+		for _, d := range p.decisions {
+			if x, op, isCmp := isNilCompare(p, d.cond); isCmp && isVal(x) {
+				notNil := d.truth == (op == token.NEQ)
+				if notNil != constant.BoolVal(c) {
+					return false
+				}
+				decided = true
+			}
+		}
+		if !decided {
+			return false
+		}
+	}
+	return true
 }
